@@ -115,6 +115,10 @@ def labelsOK (o : Obs) : Bool :=
       (match exp.find? (fun e => e.1 == p.seat) with | some e => p.positions == e.2 | none => false)
     else p.positions.isEmpty)
 
+def allDistinctS : List String → Bool
+  | [] => true
+  | h :: t => !(t.contains h) && allDistinctS t
+
 /-- the sub-claims spelled out in the property -/
 def labelClaims (o : Obs) : Bool :=
   let di := o.players.filter (·.participated)
@@ -123,7 +127,7 @@ def labelClaims (o : Obs) : Bool :=
   -- SB seat dealt in: sb (dealer+sb heads-up)
   (di.all (fun p => if p.seat == o.sb then p.positions.contains "sb" && (if di.length == 2 then p.positions.contains "dealer" else true) else true)) &&
   -- no two players share a label, every dealt-in player has one, nobody else has any
-  SM.allDistinct ((di.map (fun p => p.positions)).flatten.map (fun s => s.hash.toNat)) &&
+  allDistinctS ((di.map (fun p => p.positions)).flatten) &&
   di.all (fun p => !p.positions.isEmpty) &&
   (o.players.filter (fun p => !p.participated)).all (fun p => p.positions.isEmpty)
 
